@@ -4,9 +4,10 @@ CONSTANTS
   MaxSlot = 5
   MaxGen = 2
   MaxFaults = 1
+  MaxPersist = 2
   Variants = 2
   Kinds = {"att", "blk"}
-  FaultKinds = {"crash", "crashafter", "fail", "rerr", "rmiss"}
+  FaultKinds = {"crash", "crashafter", "fail", "failall", "rerr", "rmiss"}
   Weaken = "none"
 INVARIANT TypeOK
 INVARIANT NoSlashable
